@@ -388,6 +388,37 @@ func sm2Session(c *mon.Case, s *spec, ref *sm2kx.Result, tooLong bool) {
 		c.Fail("mismatch", "initiator key %x != responder key %x", keyA, keyB)
 	}
 	c.Event("sm2_agreements", 1)
+
+	// one forged (non-empty) SB and SA per session on fresh objects with the same
+	// flags: refused whatever the verifying party's own genSignature flag is
+	badSB, badSA := append([]byte(nil), ref.SB...), append([]byte(nil), ref.SA...)
+	badSB[c.R.Intn(32)] ^= 1 << uint(c.R.Intn(8))
+	badSA[c.R.Intn(32)] ^= 1 << uint(c.R.Intn(8))
+	var e1, e2 error
+	if c.Call("forged SB/SA on fresh objects", func() {
+		var fi, fr *sm2.KeyExchange
+		if fi, e1 = newKX(a, copyPub(peerOfA), s.idA, s.idB, s.klen, genA, s.setPeer); e1 == nil {
+			if _, e1 = fi.InitKeyExchange(mon.NewScript(ec.Bytes32(s.rA))); e1 == nil {
+				_, _, e1 = fi.ConfirmResponder(copyPub(RB), badSB)
+			}
+		}
+		if fr, e2 = newKX(b, copyPub(peerOfB), s.idB, s.idA, s.klen, genB, s.setPeer); e2 == nil {
+			if _, _, e2 = fr.RepondKeyExchange(mon.NewScript(ec.Bytes32(s.rB)), copyPub(RA)); e2 == nil {
+				_, e2 = fr.ConfirmInitiator(badSA)
+			}
+		}
+	}) {
+		if e1 == nil {
+			c.Fail("accept", "ConfirmResponder (initiator genSignature=%v, responder genSignature=%v) accepted a wrong, non-empty SB %x (genuine %x)", genA, genB, badSB, ref.SB)
+		} else {
+			c.Event(fmt.Sprintf("forged_SB_refused/mode%d", s.mode), 1)
+		}
+		if e2 == nil {
+			c.Fail("accept", "ConfirmInitiator (initiator genSignature=%v, responder genSignature=%v) accepted a wrong, non-empty SA %x (genuine %x)", genA, genB, badSA, ref.SA)
+		} else {
+			c.Event(fmt.Sprintf("forged_SA_refused/mode%d", s.mode), 1)
+		}
+	}
 	if c.N%4 == 0 {
 		c.Digest(fmt.Sprintf("K/%d", c.N), keyA)
 	}
